@@ -482,11 +482,15 @@ fn p08(p: &mut ProbeReport, r: &mut Rng, budget: usize) {
             ("shorter-title-at-equal-rating", u.clone(), format!("{} {}", u, x), u.clone(), true),
         ];
         if !v.func.is_empty() {
-            let f = r.pick(&v.func).clone();
+            // walk through the whole function-word table of the language (spellings with accents first)
+            let mut fw: Vec<String> = v.func.iter().filter(|w| !w.is_ascii()).cloned().collect();
+            fw.extend(v.func.iter().filter(|w| w.is_ascii()).cloned());
+            let f = fw[(i / LANGS.len()) % fw.len()].clone();
             let content = format!("{}{}", f, synth_word(r, a3, 3, 5));
             let tf = tokenize_record(&f, &lang);
             let tc = tokenize_record(&content, &lang);
-            if tf.words.len() == 1 && tf.words[0].is_function() && tc.words.len() == 1 && !tc.words[0].is_function() {
+            // f is a function word because the language's table lists it (not because the tokenizer under test says so)
+            if tf.words.len() == 1 && tc.words.len() == 1 && !v.func.contains(&content) {
                 rules.push(("content-word-beats-function-word", content, f.clone(), f, false));
             }
         }
